@@ -149,6 +149,8 @@ def _array_stats(sem, t, v, ctx, acc):
 
 def run_case(case, ctx):
     m = import_repo()
+    if case.get("constants"):
+        return _run_const(case, ctx, m)
     if case.get("ragged"):
         return _run_ragged(case, ctx, m)
     if case.get("refuse"):
@@ -267,9 +269,52 @@ def _run_refuse(case, ctx, m):
         ctx.count("refuse:right-length-accepted")
 
 
+@st.composite
+def const_case(draw):
+    return {"constants": True, "elem": draw(st.sampled_from(["uint8", "uint16", "char", "int24"])), "r": draw(st.integers(0, 4)), "mval": draw(st.integers(0, 4)),
+            "c": draw(st.integers(0, 5)), "mode": draw(st.sampled_from(["fallback", "clash", "clash", "clash-foldable"])), "define_after": draw(st.booleans()),
+            "compiled": draw(st.booleans()), "form": draw(st.sampled_from(["{a} + {b}", "{b} + {a}", "({a}) + {b} * 1", "{a}+{b}"]))}
+
+
+def _run_const(case, ctx, m):
+    """x[expr]: identifiers are looked up in the fields parsed so far first, constants are only the fallback."""
+    et, r, mv, c, mode = case["elem"], case["r"], case["mval"], case["c"], case["mode"]
+    size = SCALARS[et][1]
+    if mode == "fallback":
+        define, body, want = f"#define K {c}\n", f"uint8 r; uint8 m; {et} arr[{case['form'].format(a='r', b='K')}]; uint8 tail;", r + c
+    elif mode == "clash":
+        define, body, want = f"#define m {c}\n", f"uint8 r; uint8 m; {et} arr[{case['form'].format(a='r', b='m')}]; uint8 tail;", r + mv
+    else:
+        define, body, want = f"#define r {c}\n", f"uint8 r; uint8 m; {et} arr[r]; uint8 tail;", r
+    struct = f"struct Root {{ {body} }};\n"
+    cs = m.cstruct()
+    for part in ([struct, define] if case["define_after"] else [define, struct]):
+        res = lib(cs.load, part, compiled=case["compiled"])
+        if isinstance(res, Err):
+            raise Violation("definition-rejected", f"{part!r}: {res}", res.where)
+    data = bytes([r, mv]) + bytes(((i * 5 + 1) & 0x7F) or 1 for i in range(want * size)) + b"\xEE" + bytes(16)
+    obj = lib(cs.Root, data)
+    what = f"{define.strip()} {'after' if case['define_after'] else 'before'} {struct.strip()} with r={r} m={mv} (compiled={case['compiled']})"
+    if isinstance(obj, Err):
+        raise Violation("constants:parse-raised", f"{what}: {obj}", obj.where, {"mode": mode, "define_after": case["define_after"]})
+    if len(obj.arr) != want or obj.tail != 0xEE:
+        raise Violation("constants:wrong-count", f"{what}: {len(obj.arr)} elements (tail {obj.tail:#x}), fields-first resolution gives {want}", info={"mode": mode, "define_after": case["define_after"]})
+    ctx.count(f"constants:{mode}:{'after' if case['define_after'] else 'before'}")
+    ctx.mark_nontrivial(case)
+    ctx.sample({"definition": define + struct, "r": r, "m": mv, "elements": want}, "constants:" + mode)
+
+
+def _kf_const_fold(case, v):
+    return bool(case.get("constants")) and case.get("mode") == "clash-foldable" and not case.get("define_after") and v.kind == "constants:wrong-count"
+
+
+KNOWN_PREDICATES = {"constant-folded-over-field": _kf_const_fold}
+
+
 def stages(tier):
     q = tier == "quick"
     return [
+        HypStage("constants", const_case, examples=300 if q else 2000, shards=1 if q else 2),
         HypStage("fields", field_case, examples=1500 if q else 6000, shards=8 if q else 16),
         HypStage("standalone", standalone_case, examples=1500 if q else 6000, shards=4 if q else 8),
         HypStage("ragged", ragged_case, examples=300 if q else 2000, shards=1 if q else 2),
